@@ -276,7 +276,7 @@ pub fn c04_build(c: &C04Raw) -> gen::PosSpec {
 }
 
 pub fn c04_position(p: &gen::PosSpec, st: &mut Stats) -> Check {
-    let eng = engine_from_position(&p.board, p.gold_to_move, p.move_number).map_err(|e| Fail::new("harness:start", e))?;
+    let eng = engine_from_position_styled(&p.board, p.gold_to_move, p.move_number, p.notation).map_err(|e| Fail::new("harness:start", e))?;
     let mo = Model::from_position(p.board, p.gold_to_move, p.move_number);
     let v = View::new(&eng, &mo, false);
     c04_check(&v, st)
@@ -336,14 +336,14 @@ fn run_c04(cfg: &RunCfg, stats: &mut Stats) -> Outcome {
 
 pub fn c11_position(p: &gen::PosSpec, st: &mut Stats) -> Check {
     use crate::props::{sym_action, sym_board, sym_winner, Sym};
-    let eng = engine_from_position(&p.board, p.gold_to_move, p.move_number).map_err(|e| Fail::new("harness:start", e))?;
+    let eng = engine_from_position_styled(&p.board, p.gold_to_move, p.move_number, p.notation).map_err(|e| Fail::new("harness:start", e))?;
     st.eval();
     let base = guard(|| (eng.valid_actions(), eng.valid_actions_no_rep(), winner_of(&eng.is_terminal()))).map_err(|e| Fail::new("C11:panic", e))?;
     let ctx = format!("[{} | {} to move]", board_text(&p.board), if p.gold_to_move { "gold" } else { "silver" });
     for s in [Sym::Mirror, Sym::Swap, Sym::Both] {
         let ib = sym_board(s, &p.board);
         let side = if s == Sym::Mirror { p.gold_to_move } else { !p.gold_to_move };
-        let img = engine_from_position(&ib, side, p.move_number).map_err(|e| Fail::new("harness:start", e))?;
+        let img = engine_from_position_styled(&ib, side, p.move_number, p.notation.rotate_left(1)).map_err(|e| Fail::new("harness:start", e))?;
         let r = guard(|| (img.valid_actions(), img.valid_actions_no_rep(), winner_of(&img.is_terminal()))).map_err(|e| Fail::new("C11:image_panic", e))?;
         let map = |l: &[arimaa_engine_step::Action]| -> std::collections::BTreeSet<m::MAction> { l.iter().map(|a| sym_action(s, to_maction(a))).collect() };
         let set = |l: &[arimaa_engine_step::Action]| -> std::collections::BTreeSet<m::MAction> { l.iter().map(to_maction).collect() };
@@ -761,7 +761,7 @@ fn run_c17(cfg: &RunCfg, stats: &mut Stats, exhaustive: &mut bool, extra: &mut V
 
 fn c17_replay(c: &C17Ctx, f: &Fail, seed: u64, shard: usize) -> Value {
     json!({"property": "C17", "kind": "context", "clause": f.clause, "detail": f.detail,
-        "start": crate::drive::start_json(&gen::Start::Pos(gen::PosSpec { board: c.board, gold_to_move: c.gold, move_number: 2 })),
+        "start": crate::drive::start_json(&gen::Start::Pos(gen::PosSpec { board: c.board, gold_to_move: c.gold, move_number: 2, notation: 0 })),
         "step": c.step, "status_idx": c.status_idx, "seed": seed, "shard": shard})
 }
 
